@@ -377,8 +377,15 @@ func (g *gImpl) deadline() string {
 	}
 	res := make(chan string, 1)
 	go func() {
-		e1 := g.wg.WaitTimeout(2 * time.Millisecond)
-		ctx, cancel := context.WithTimeout(context.Background(), 2*time.Millisecond)
+		// with count zero the call must return at once, so the deadline is generous (a short one
+		// could fire first on a loaded machine and make select pick it); with a positive count the
+		// deadline is what we wait for, so it is short
+		d := 2 * time.Millisecond
+		if g.sumRet == 0 {
+			d = 30 * time.Second
+		}
+		e1 := g.wg.WaitTimeout(d)
+		ctx, cancel := context.WithTimeout(context.Background(), d)
 		defer cancel()
 		e2 := g.wg.WaitCTX(ctx)
 		switch {
@@ -393,7 +400,7 @@ func (g *gImpl) deadline() string {
 	select {
 	case r := <-res:
 		return r
-	case <-time.After(2 * time.Second):
+	case <-time.After(20 * time.Second):
 		return "hang"
 	}
 }
